@@ -28,6 +28,7 @@ SUPPORTED = (algebra.UNARY_PROPS - algebra.MOMENTUM_ONLY) | {
     "boostX_gamma", "boostY_gamma", "boostZ_gamma", "add", "subtract", "cross", "dot", "deltaphi", "deltaangle", "deltaeta", "deltaR",
     "deltaR2", "deltaRapidityPhi", "deltaRapidityPhi2", "boost_p4", "boost_beta3", "boostCM_of_p4", "boostCM_of_beta3", "boost",
     "boostCM_of", "equal", "not_equal", "isclose", "is_parallel", "is_antiparallel", "is_perpendicular", "is_timelike", "is_spacelike", "is_lightlike"}
+TAU_SENSITIVE = {"tau", "abs", "gamma", "unit", "np_sqrt", "np_cbrt", "np_power"}
 MOMENTUM_PROPS = {"Et": "transverse_energy", "Et2": "transverse_energy2", "Mt": "transverse_mass", "Mt2": "transverse_mass2"}
 
 
@@ -196,10 +197,13 @@ def run_job(job):
         return recs, 0, 0
     compiled = 0
     for case in job["cases"]:
-        if case["exp"] == ["bool", "either"]:
+        if case["exp"][0] == "bool" and case["exp"][1] in ("either", "tieT", "tieF"):
             continue             # an exact tie of a tolerance predicate: either answer is allowed
         if op in ("equal", "not_equal") and case["a"] == case["b"] and sa != sb:
             continue             # exact equality of one vector stored in two systems is decided by rounding
+        if op in TAU_SENSITIVE and "a:lightlike" in algebra.strata(case) and tuple(sa) != coords.CANON[len(sa) + 1]:
+            continue             # tau = sqrt(t^2 - mag^2) at its branch point through rounded storage: the sign of the rounding
+                                 # residue (and with it tau, gamma = t / tau, unit = v / |tau|) differs between fused and unfused arithmetic
         va = algebra.vec_of(case["a"])
         vb = algebra.vec_of(case["b"]) if case["b"] else None
         if not coords.representable(va, sa) or (vb is not None and not coords.representable(vb, sb)):
